@@ -4,3 +4,4 @@ import Proofs.C18
 import Proofs.C20
 import Proofs.C16
 import Proofs.C15
+import Proofs.C13
